@@ -629,6 +629,12 @@ func pqSystematicAlways() []string {
 			out = append(out, fmt.Sprintf("baz %s (%s)", outer, inner), fmt.Sprintf("(%s) %s baz", inner, outer))
 		}
 	}
+	// S11: matchers that may or may not admit the empty value (only `l=""` removes l) on a side of a join / aggregation on l
+	for _, sel := range []string{`foo{a=~"1|"}`, `foo{a=~".*"}`, `foo{a=~".+"}`, `foo{a!~"2"}`, `foo{a!="2"}`, `foo{a=""}`} {
+		for _, f := range []string{"%s and on(a) bar", "bar and on(a) %s", "%s * on(a) bar", "bar * on(a) group_left() %s", "sum by(a) (%s)", "%s"} {
+			out = append(out, fmt.Sprintf(f, sel))
+		}
+	}
 	// S7: absent()/absent_over_time() over dead, always-returning and ordinary operands, bare and as the deciding
 	// operand of on() set operators
 	for _, in := range []string{"foo", `foo{a="1"}`, "vector(1)", "vector(1) > 2", "foo unless on() vector(1)", "foo and on(a) sum(bar)", "sum(foo)"} {
